@@ -219,6 +219,34 @@ CLAIMED['C15'] = dict(
          'tempfile stand-ins; data-set contents: 2-3 symbolic bytes, the rest concrete; pydicom encodes the Dataset variant.',
     design='5/C15')
 
+CLAIMED['C11'] = dict(
+    text='The real configuration API (add_scu / add_scp / copy_context_def_list on a real AE object) and the real '
+         'AssociationRequester (constructor, request/_request, get_scu) run symbolically: three configuration calls with '
+         'symbolic class-list sizes, symbolic number of transfer syntaxes and maximum length; the scripted reply carries a '
+         'symbolic result 0..4 and transfer-syntax choice per context; sequences of two associations on one entity; the '
+         '128-class edge with a symbolic class count. Asserted: called/calling titles, application context, maximum length, '
+         'each class proposed once under distinct odd ids 1..255 with the configured syntaxes, PDU encodable; usable '
+         'contexts = accepted among proposed with the peer\'s syntax; get_scu succeeds iff such a context exists, else '
+         'ClassNotSupportedError.',
+    note=TRUSTED + 'Known finding D14 (more than 128 configured classes get ids above 255) is listed in known_findings.json and '
+         'excluded by its predicate; class lists of successive calls are disjoint; replies are conformant.',
+    design='5/C11')
+
+CLAIMED['C20'] = dict(
+    category='exploration',
+    text='Isolation as a 2-safety property decided by interleaving at association-step granularity: two real '
+         'AssociationAcceptor objects (real constructors, real accept/_loop, real verification and storage providers) share '
+         'ONE real AE object; their steps (construct, establish, serve each message, abort) are interleaved by schedule '
+         'words, with per-association maximum length, accepted-context subset, transfer-syntax order and abort decision '
+         'chosen by symbolic selectors; every association\'s trace (reply, responses read back from the bytes, routing '
+         'tables, negotiated length, handler calls) must equal its trace when run alone on a fresh entity. Plus: message ids '
+         'of the convenience API distinct within a thread, context-list copies unaffected by later configuration. This '
+         'finds state shared through the entity, classes or modules; it does NOT cover byte-code level thread races.',
+    note=TRUSTED + 'OUTSIDE the claim: real OS threads / GIL scheduling / real TCP (a Python symbolic executor cannot make the '
+         'thread schedule a solver variable) - that part of the property is not addressed by this technique. Schedules: 3 '
+         '(quick) / 8 (thorough) words; selectors are finite and enumerated by the solver.',
+    design='5/C20')
+
 NOT_YET = 'check not built yet in this revision (see DESIGN.md section 5 for the plan)'
 
 NOT_APPLICABLE = {}
